@@ -222,7 +222,11 @@ func RunC07A(t *testing.T) {
 	const prop = "C07"
 	col := GlobalCollector(prop)
 	col.AddRule(CfgC07().Rule)
+	allow := caseLimiter(0)
 	body := func(rt *rapid.T, ops []Op) {
+		if rt != nil && !allow() {
+			return
+		}
 		labels := map[string]int{}
 		if rt != nil {
 			h, g := genLogK(rt, c07Weights(), 12, 60, 85)
